@@ -130,7 +130,7 @@ func TestKnown(t *testing.T)  { kit.RunKnown(t) }
 func TestReplay(t *testing.T) { kit.RunReplay(t) }
 
 func TestHeadingIDs(t *testing.T) {
-	kit.Rapid(t, "ids", 150000, 2000000, func(t *rapid.T) {
+	kit.Rapid(t, "ids", 150000, 8000000, func(t *rapid.T) {
 		cfg := gen.DrawConfig(t, gen.ConfigOpts{SafeOnly: true, NoAttr: true, ForceAuto: true})
 		nd := rapid.IntRange(1, 4).Draw(t, "ndocs")
 		c := kit.NewCase("ids", cfg.String()).I("ndocs", int64(nd))
